@@ -12,7 +12,7 @@ import (
 type resumPlan struct {
 	Chunks     []int // chunk sizes (the last chunk takes the remainder)
 	KnownTotal bool  // declare the total in every chunk ("/N") or only in the last one ("/*" before)
-	Actions    []int // per step: 0 next chunk, 1 status query first, 2 re-send the previous range, 3 duplicate the request, 4 response lost (re-send), 5 finish by "bytes */N", 6 server restart (file store)
+	Actions    []int // per step: 0 next chunk, 1 status query first, 2 re-send the previous range, 3 duplicate the request, 4 response lost (re-send), 5 finish by "bytes */N", 6 server restart (file store), 7 re-send from the middle of the previous range and continue past it in one request
 	StarQuery  bool  // status queries use "bytes */*"
 }
 
@@ -121,6 +121,14 @@ restart:
 			// re-send an earlier range (the server must truncate and continue from there)
 			r.Fault("resend_earlier_range")
 			lo, n = prevLo, prevN
+		} else if act == 7 && prevLo >= 0 && prevN >= 2 && acked == prevLo+int64(prevN) && acked < N {
+			// the client resumes from an offset inside what the server already holds and its
+			// range reaches past it: the overlapping bytes are sent again, new ones follow
+			r.Fault("resend_overlapping_range")
+			r.Probe("c02.resend_overlapping_range")
+			lo = prevLo + int64(prevN)/2
+			n = int(acked-lo) + n
+			ci++
 		} else {
 			ci++
 		}
